@@ -52,10 +52,11 @@ def handleCodec (op : String) (args : List String) (impl : Option (List String))
       let lbl := match certLabel cert with
         | none => "none"
         | some l => hexOfStr l
-      let model := [toString t.toNat, lbl, showStrList (getPrincipals ps t)]
+      let model := [toString t.toNat, lbl, showStrList (getPrincipals ps t), "again=same"]
       let spec := impl.map fun out =>
         match out with
-        | [tS, lS, pS] =>
+        | [tS, lS, pS, again] =>
+          if again != "again=same" then "bad:classification-depends-on-history" else
           match tS.toNat?, (if lS == "none" then some none else (strOfHex lS).map some),
                 parseStrList pS with
           | some tn, some l, some ps' => verdict (Spec.C19.check cert ps ⟨tn, l, ps'⟩)
